@@ -254,6 +254,9 @@ def _mk_c10(tier, seed):
             if tier == 'quick' and state != ('OPENSENT' if cls == 'FUZZ_OPEN' else 'ESTABLISHED') and (len(jobs) % 3):
                 continue
             jobs.append(('c10', wcfg, state, cls, data))
+    for data in scenarios.HOSTILE_LS:
+        jobs.append(('c10', wcfg, 'ESTABLISHED', 'FUZZ_UPD', data))
+        jobs.append(('c10', wcfg, 'ESTABLISHED', 'FUZZ_UPD_REP', data))
     return jobs
 
 
@@ -269,7 +272,7 @@ def _mk_c01(tier, seed):
 
 def _mk_c12(tier, seed):
     import scenarios
-    return scenarios.c12md5_jobs(tier, seed) + scenarios.c18q_jobs(tier, seed)
+    return scenarios.c12md5_jobs(tier, seed) + scenarios.c18q_jobs(tier, seed) + scenarios.c13u_jobs(tier, seed)
 
 
 def _mk_c02(tier, seed):
